@@ -415,6 +415,11 @@ def nanvar(
     scalar or ndarray
         Variance of values
     """
+    arr = np.asarray(arr)
+    if arr.dtype.kind in "iu":
+        # a variance is a float: integer sums of squares and the squared integer sum
+        # overflow 64 bits long before float64 loses them
+        arr = arr.astype("float64")
     kwargs = locals().copy()
     del kwargs["ddof"]
     n = count(arr, axis=axis)
